@@ -1023,3 +1023,144 @@ def shim(real, conv, also=()):
             return hash(real)
 
     return M(real.__name__, (), {"__doc__": "symx shim for %s" % real.__name__})
+
+
+class SymDict(dict):
+    """dict whose keys may be symbolic integers (used for every dict display in
+    the loaded source).  A look-up with a symbolic key compares it with every
+    integer key already present (each comparison forks through the solver);
+    concrete keys behave as in a plain dict.  Symbolic keys live in a side list
+    (insertion order among them is kept; relative order to concrete keys is not)."""
+
+    def __init__(self, *a, **k):
+        super().__init__(*a, **k)
+        self._sym = []
+
+    @staticmethod
+    def _symbolic(key):
+        if isinstance(key, SymInt):
+            try:
+                return None, concretize_unique(key, "dict key")
+            except Unsupported:
+                return key, None
+        return None, key
+
+    def _match(self, key):
+        """('sym', index) / ('plain', key) / None for the entry equal to key."""
+        skey, ckey = self._symbolic(key)
+        if skey is None:
+            if isinstance(ckey, int) and not isinstance(ckey, bool):
+                for i, (k, _) in enumerate(self._sym):
+                    if tb(k == ckey):
+                        return ("sym", i)
+            try:
+                return ("plain", ckey) if dict.__contains__(self, ckey) else None
+            except TypeError:
+                raise
+        for i, (k, _) in enumerate(self._sym):
+            if k is skey or tb(k == skey):
+                return ("sym", i)
+        for k in list(dict.keys(self)):
+            if isinstance(k, int) and not isinstance(k, bool) and tb(skey == k):
+                return ("plain", k)
+        return None
+
+    def __getitem__(self, key):
+        m = self._match(key)
+        if m is None:
+            raise KeyError(key)
+        return self._sym[m[1]][1] if m[0] == "sym" else dict.__getitem__(self, m[1])
+
+    def __setitem__(self, key, val):
+        m = self._match(key)
+        if m is not None:
+            if m[0] == "sym":
+                self._sym[m[1]] = (self._sym[m[1]][0], val)
+            else:
+                dict.__setitem__(self, m[1], val)
+            return
+        skey, ckey = self._symbolic(key)
+        if skey is None:
+            dict.__setitem__(self, ckey, val)
+        else:
+            self._sym.append((skey, val))
+
+    def __delitem__(self, key):
+        m = self._match(key)
+        if m is None:
+            raise KeyError(key)
+        if m[0] == "sym":
+            del self._sym[m[1]]
+        else:
+            dict.__delitem__(self, m[1])
+
+    def __contains__(self, key):
+        return self._match(key) is not None
+
+    def get(self, key, default=None):
+        m = self._match(key)
+        if m is None:
+            return default
+        return self._sym[m[1]][1] if m[0] == "sym" else dict.__getitem__(self, m[1])
+
+    def setdefault(self, key, default=None):
+        m = self._match(key)
+        if m is None:
+            self[key] = default
+            return default
+        return self._sym[m[1]][1] if m[0] == "sym" else dict.__getitem__(self, m[1])
+
+    _MISSING = object()
+
+    def pop(self, key, default=_MISSING):
+        m = self._match(key)
+        if m is None:
+            if default is SymDict._MISSING:
+                raise KeyError(key)
+            return default
+        if m[0] == "sym":
+            return self._sym.pop(m[1])[1]
+        return dict.pop(self, m[1])
+
+    def __len__(self):
+        return dict.__len__(self) + len(self._sym)
+
+    def __bool__(self):
+        return len(self) > 0
+
+    def __iter__(self):
+        yield from dict.__iter__(self)
+        for k, _ in self._sym:
+            yield k
+
+    def keys(self):
+        return list(self.__iter__()) if self._sym else dict.keys(self)
+
+    def values(self):
+        return (list(dict.values(self)) + [v for _, v in self._sym]) if self._sym else dict.values(self)
+
+    def items(self):
+        return (list(dict.items(self)) + list(self._sym)) if self._sym else dict.items(self)
+
+    def update(self, *a, **k):
+        for kk, v in dict(*a, **k).items():
+            self[kk] = v
+
+    def clear(self):
+        dict.clear(self)
+        self._sym = []
+
+    def copy(self):
+        c = SymDict(dict.items(self))
+        c._sym = list(self._sym)
+        return c
+
+    def __eq__(self, o):
+        if self._sym or getattr(o, "_sym", None):
+            raise Unsupported("equality of dictionaries with symbolic keys")
+        return dict.__eq__(self, o)
+
+    def __ne__(self, o):
+        return not self.__eq__(o)
+
+    __hash__ = None
